@@ -115,6 +115,18 @@ CHECKS["C19"] = {
     "text": "For 80 one-array and 47 two-array public entry points: built under an explicit Spec (symbolic allowed_mem/reserved_mem with allowed-reserved >= 1e5; work_dir none/local/cloud; compressor auto/none; executor set) the expression is accepted exactly as under the default configuration (no helper array created without the operands' spec), records the same operation geometry (write chunks, task counts, fusability, shapes, chunks, dtypes), results carry the explicit Spec and every operation uses its allowed_mem/reserved_mem with projected memory including reserved memory; only a cloud work_dir changes the buffer-copy model.",
     "note": "value equality across real stores/codecs is outside (C01 decides values for the recorded geometry); take() (eager index evaluation) is exempt.",
 }
+CHECKS["C20"] = {
+    "engine": "sx",
+    "technique": "symbolic execution (z3) of the real name generators and of the real plan merge with symbolic process states; counterexamples replayed through real cloudpickle in two processes",
+    "text": "Name identity part: the three gensym functions give names that determine the counter (injective formatting incl. the 999->1000 width change) and increase by one; an array built in a process that had built k1 arrays, shipped and combined with an array built in a process that had built k2 arrays (k1, k2 symbolic), must keep its identity in the merged real plan (distinct array and operation names, provenance of the result names both operands). On the current tree this FAILS whenever the counters coincide: listed as a known finding (reproduced through the public API with real cloudpickle in two processes); any other violation still fails the check.",
+    "note": "a second process is modelled by fresh values of the module-level name counters, advanced by really building arrays; cloudpickle fidelity and value equality after a round trip are outside (exercised only in the replay).",
+}
+CHECKS["C06"] = {
+    "engine": "sx",
+    "technique": "bounded symbolic execution (z3) of the real task body (apply_blockwise) on recording arrays and of the real per-block RNG seeding with a symbolic 128-bit root seed",
+    "text": "(i) For the operation catalogue with symbolic geometry and a symbolic block coordinate, the real apply_blockwise run twice issues the same reads and writes (a function of (coordinates, config) only), writes each output array exactly once, into the region of its own block coordinates and inside the array, and never reads an array it writes; with C05's disjointness of task regions this yields order/repetition/placement independence of the stored values (stated argument). (iii) random(): the Philox key of a block is valid for every 128-bit root seed, identical on re-execution of the block and distinct for distinct blocks.",
+    "note": _GEOM_NOTE + " Determinism of NumPy functions, cloudpickle round trips and third-party process-global state are outside; 'after downstream operations ran' needs C07.",
+}
 for p in PENDING:
     if p not in CHECKS:
         NOT_APPLICABLE[p] = "check not built yet in this revision (planned, see DESIGN.md §5)"
